@@ -28,6 +28,7 @@ contract(EXQ + "._apply_ast_transformations", props=["C14", "C15", "C07", "C06"]
                                     "_type", "_p_depth", "_is_const", "_tree_type", "_element_type"],
          may_raise=["Exception"], strict=False, result=Ref,
          opaque_locals=["method_names", "extended_md_types"],
+         typing_exceptions={"_method_names": "the call-site table handed to cpp_ast_finder is an opaque local of this proof (built by a dict comprehension over closures)"},
          local_sorts=dict(cpp_functions=TList(Spec)),
          ensures=[("inject_blocks_of_this_query@C14,C07", "is_filtering(field(self, '_inject_blocks'), final_cpp_functions, 'func_adl_xAOD.common.meta_data.InjectCodeBlock')"),
                   ("builtin_callables_untouched@C06,C07", "unchanged('_method_names')"),
